@@ -84,6 +84,43 @@ def build_coq(clean=False):
     return time.time() - t
 
 
+def coqchk_module(module, timeout=7200):
+    """Thorough tier: re-check the compiled property module and everything it depends on with Coq's
+    independent checker.  Cached by the content of coq/*.v.  Returns (problems, axioms)."""
+    import hashlib
+    h = hashlib.sha256()
+    for f in sorted(os.listdir(COQ)):
+        if f.endswith(".v"):
+            h.update(f.encode())
+            h.update(open(os.path.join(COQ, f), "rb").read())
+    cdir = os.path.join(BUILD, "coqchk")
+    os.makedirs(cdir, exist_ok=True)
+    cache = os.path.join(cdir, "%s-%s.json" % (module, h.hexdigest()[:16]))
+    if os.path.exists(cache):
+        d = json.load(open(cache))
+        return d["problems"], d["axioms"]
+    p = sh(["coqchk", "-silent", "-o", "-Q", COQ, "Calc", "Calc." + module], timeout=timeout, check=False)
+    out = p.stdout.decode(errors="replace") + p.stderr.decode(errors="replace")
+    problems = []
+    if p.returncode != 0:
+        problems.append("coqchk fails on %s: %s" % (module, out[-1500:]))
+    for label in ("relying on type-in-type", "relying on unsafe (co)fixpoints", "whose positivity is assumed"):
+        m = re.search(re.escape(label) + r":\s*(.*?)\n\s*\n", out, flags=re.S)
+        if not m or m.group(1).strip() != "<none>":
+            problems.append("coqchk: %s: %s" % (label, (m.group(1).strip()[:300] if m else "section missing")))
+    axioms = []
+    m = re.search(r"Axioms:\s*(.*?)\n\s*\n", out, flags=re.S)
+    if m and m.group(1).strip() != "<none>":
+        axioms = [a.strip() for a in m.group(1).split("\n") if a.strip()]
+    # coqchk lists the axioms of every loaded library file, used or not; anything that is not the standard
+    # library's own is a problem, the rest is named in the evidence
+    for a in axioms:
+        if not a.startswith("Coq."):
+            problems.append("coqchk reports an axiom that is not the standard library's: " + a)
+    json.dump({"problems": problems, "axioms": axioms}, open(cache, "w"))
+    return problems, axioms
+
+
 def gate_no_admits():
     """Reject Admitted/admit/Axiom/Parameter/... anywhere in the development."""
     bad = []
